@@ -117,7 +117,8 @@ def check(model, R, tier):
         while isinstance(a0, ast.Name) and a0.id in env:
             a0 = env[a0.id]
         ok = isinstance(a0, ast.Call) and dotted(a0.func) == 'log_softmax_forward' and [norm(x) for x in a0.args] == ['y_pred', '1']
-    R.ob('C14.TREE', f.qualname, 'nll_loss_forward(log_softmax_forward(y_pred, 1), y_true)', ok, 'cross-entropy = NLL of log_softmax along dim 1', f.loc)
+    # (decided as a term identity by C14.EXPLOG: cross_entropy(a, y) = nll(log_softmax(a, 1), y), whatever the spelling - helper inlined, keyword axis ...)
+    R.note('cross-entropy forward written as nll_loss_forward(log_softmax_forward(y_pred, 1), y_true): %s' % ok)
     # ---- BCE-with-logits = BCE(sigmoid(x), y): BCE is affine in the target, so the fused kernels must be affine in y_true as well
     R.rule('C14.AFFINE', 'BCE(p, y) is affine in the target y; the natively implemented BCE-with-logits kernels must therefore be affine in y_true (necessary for the identity on soft labels in [0, 1])', floor=2)
     from sa.absint import Interp, Tup
